@@ -50,25 +50,37 @@ use vh::{Tier, Violation};
 #[derive(Clone, Debug, PartialEq, Eq, Hash, PartialOrd, Ord)]
 struct Point {
     mode: &'static str,    // WebRtc | Srtp | Rtp
-    media: &'static str,   // dc | audio | video | audio+video | dc+audio+video
+    media: &'static str,   // dc | audio | video | audio+video | dc+audio+video | audio+video/ans-rev
     bundle: &'static str,  // Balanced | MaxCompat | MaxBundle
-    mux: &'static str,     // Require | Negotiate
-    ice: &'static str,     // WebRtc: full | lite-ans | tcp | tcp-only | udpmux-ans | relay-off | relay-ans ; direct: none | lite-ans
+    mux: &'static str,     // rtcp-mux policy, both ends: Require | Negotiate ; offerer/answerer: Req/Neg | Neg/Req
+    ice: &'static str,     // WebRtc: ICE_WEBRTC | relay-off | relay-ans ; direct: ICE_DIRECT
     latch: &'static str,   // direct: off | p0 | p3 ; WebRtc: na
     compat: &'static str,  // Standard | LegacySip
     offerer: &'static str, // A | B
+    cand: &'static str,    // WebRtc: sdp (candidates inside offer/answer) | trickle (stripped from the SDP, add_ice_candidate afterwards) ; direct: na
+    ip: &'static str,      // v4 (127.0.0.1) | v6 (::1)
+    dcs: &'static str,     // na (no channel) | inband | inband2 | negotiated | late
+    traffic: &'static str, // one (one item per flow, one flow after another) | burst (all flows at once, numbered bursts)
 }
 
 const MODES: [&str; 3] = ["WebRtc", "Srtp", "Rtp"];
 const MEDIA: [&str; 6] = ["dc", "audio", "video", "audio+video", "dc+audio+video", "audio+video/ans-rev"];
 const BUNDLES: [&str; 3] = ["Balanced", "MaxCompat", "MaxBundle"];
-const MUXES: [&str; 2] = ["Require", "Negotiate"];
-const ICE_WEBRTC: [&str; 5] = ["full", "lite-ans", "tcp", "tcp-only", "udpmux-ans"];
-const ICE_DIRECT: [&str; 2] = ["none", "lite-ans"];
+const MUXES: [&str; 4] = ["Require", "Negotiate", "Req/Neg", "Neg/Req"];
+const ICE_WEBRTC: [&str; 8] = ["full", "lite-ans", "lite-off", "tcp", "tcp-only", "tcp-only/off-listens", "tcpmux-ans", "udpmux-ans"];
+const ICE_DIRECT: [&str; 3] = ["none", "lite-ans", "lite-off"];
 const LATCHES: [&str; 3] = ["off", "p0", "p3"];
 const COMPATS: [&str; 2] = ["Standard", "LegacySip"];
 const OFFERERS: [&str; 2] = ["A", "B"];
 const ICE_RELAY: [&str; 2] = ["relay-off", "relay-ans"];
+const CANDS: [&str; 2] = ["sdp", "trickle"];
+const IPS: [&str; 2] = ["v4", "v6"];
+const DCS: [&str; 5] = ["na", "inband", "inband2", "negotiated", "late"];
+const TRAFFICS: [&str; 2] = ["one", "burst"];
+/// The value sets of the first-round lattice (kept as a region of the quick tier in full).
+const MUXES_R1: [&str; 2] = ["Require", "Negotiate"];
+const ICE_WEBRTC_R1: [&str; 5] = ["full", "lite-ans", "tcp", "tcp-only", "udpmux-ans"];
+const ICE_DIRECT_R1: [&str; 2] = ["none", "lite-ans"];
 
 fn intern(s: &str) -> Option<&'static str> {
     let all: Vec<&'static str> = MODES
@@ -82,6 +94,10 @@ fn intern(s: &str) -> Option<&'static str> {
         .chain(LATCHES.iter())
         .chain(COMPATS.iter())
         .chain(OFFERERS.iter())
+        .chain(CANDS.iter())
+        .chain(IPS.iter())
+        .chain(DCS.iter())
+        .chain(TRAFFICS.iter())
         .chain(["na"].iter())
         .copied()
         .collect();
@@ -91,6 +107,9 @@ fn intern(s: &str) -> Option<&'static str> {
 impl Point {
     fn has_dc(&self) -> bool {
         self.media.contains("dc")
+    }
+    fn direct(&self) -> bool {
+        self.mode != "WebRtc"
     }
     fn kinds(&self) -> Vec<&'static str> {
         let mut v = vec![];
@@ -102,28 +121,69 @@ impl Point {
         }
         v
     }
+    /// rtcp-mux policy of one end.
+    fn mux_of(&self, answerer: bool) -> &'static str {
+        match (self.mux, answerer) {
+            ("Require", _) | ("Req/Neg", false) | ("Neg/Req", true) => "Require",
+            _ => "Negotiate",
+        }
+    }
     fn dims(&self) -> String {
         format!(
-            "mode={};media={};bundle={};mux={};ice={};latch={};compat={};offerer={}",
-            self.mode, self.media, self.bundle, self.mux, self.ice, self.latch, self.compat, self.offerer
+            "mode={};media={};bundle={};mux={};ice={};latch={};compat={};offerer={};cand={};ip={};dcs={};traffic={}",
+            self.mode, self.media, self.bundle, self.mux, self.ice, self.latch, self.compat, self.offerer, self.cand, self.ip, self.dcs, self.traffic
         )
     }
     fn to_json(&self) -> Value {
         json!({"mode": self.mode, "media": self.media, "bundle": self.bundle, "mux": self.mux,
-               "ice": self.ice, "latch": self.latch, "compat": self.compat, "offerer": self.offerer})
+               "ice": self.ice, "latch": self.latch, "compat": self.compat, "offerer": self.offerer,
+               "cand": self.cand, "ip": self.ip, "dcs": self.dcs, "traffic": self.traffic})
     }
     fn from_json(v: &Value) -> Option<Point> {
         let g = |k: &str| v[k].as_str().and_then(intern);
+        let mode = g("mode")?;
+        let media = g("media")?;
+        // replay files of the first round have none of the later dimensions: their defaults
         Some(Point {
-            mode: g("mode")?,
-            media: g("media")?,
+            mode,
+            media,
             bundle: g("bundle")?,
             mux: g("mux")?,
             ice: g("ice")?,
             latch: g("latch")?,
             compat: g("compat")?,
             offerer: g("offerer")?,
+            cand: g("cand").unwrap_or(if mode == "WebRtc" { "sdp" } else { "na" }),
+            ip: g("ip").unwrap_or("v4"),
+            dcs: g("dcs").unwrap_or(if media.contains("dc") { "inband" } else { "na" }),
+            traffic: g("traffic").unwrap_or("one"),
         })
+    }
+    /// The constraints between dimensions (each is listed, with its source, by `exclusions()`).
+    fn valid(&self) -> bool {
+        let d = self.direct();
+        if d && (self.has_dc() || self.cand != "na" || !ICE_DIRECT.contains(&self.ice) || self.latch == "na") {
+            return false;
+        }
+        if !d && (self.latch != "na" || self.cand == "na" || !(ICE_WEBRTC.contains(&self.ice) || ICE_RELAY.contains(&self.ice))) {
+            return false;
+        }
+        if self.has_dc() != (self.dcs != "na") {
+            return false;
+        }
+        if self.dcs == "late" && self.kinds().is_empty() {
+            return false;
+        }
+        true
+    }
+    /// A point of the first-round lattice (every later dimension at its default).
+    fn round1(&self) -> bool {
+        MUXES_R1.contains(&self.mux)
+            && (ICE_WEBRTC_R1.contains(&self.ice) || ICE_DIRECT_R1.contains(&self.ice))
+            && (self.cand == "sdp" || self.cand == "na")
+            && self.ip == "v4"
+            && (self.dcs == "inband" || self.dcs == "na")
+            && self.traffic == "one"
     }
 }
 
@@ -132,42 +192,51 @@ fn exclusions() -> Vec<Value> {
     vec![
         json!({"excluded": "media containing dc in mode Srtp or Rtp",
                "source": "src/peer_connection.rs PeerConnection::new: 'RTP / SDES-SRTP: skip ICE gathering/connectivity/DTLS loops' — direct modes never start DTLS/SCTP, so a data channel cannot exist; README 'Unified PeerConnection API' lists data channels under WebRTC only"}),
-        json!({"excluded": "ICE options tcp and udpmux in mode Srtp or Rtp (ICE dimension of direct modes is {none, lite-ans})",
-               "source": "src/peer_connection.rs PeerConnection::new (direct modes skip ICE gathering and connectivity checks; wait_for_gathering_complete returns immediately); src/config.rs ice_tcp_policy / ice_udp_mux docs describe ICE candidates only. enable_ice_lite is kept for direct modes because src/peer_connection.rs build_description documents 'ICE-lite in RTP mode'"}),
+        json!({"excluded": "ICE options tcp*, udpmux and the candidate-delivery dimension (cand) in mode Srtp or Rtp (ICE dimension of direct modes is {none, lite-ans, lite-off})",
+               "source": "src/peer_connection.rs PeerConnection::new (direct modes skip ICE gathering and connectivity checks; wait_for_gathering_complete returns immediately, there are no candidates to trickle); src/config.rs ice_tcp_policy / ice_udp_mux docs describe ICE candidates only. enable_ice_lite is kept for direct modes because src/peer_connection.rs build_description documents 'ICE-lite in RTP mode'"}),
         json!({"excluded": "latching on in mode WebRtc",
                "source": "README 'RTP Latching: enable_latching — Enable dynamic remote address detection for RTP-only mode'"}),
         json!({"excluded": "ice_udp_mux without ice_udp_mux_port; ice_udp_mux on both ends of one in-process pair",
                "source": "src/config.rs ice_udp_mux doc: 'Requires ice_udp_mux_port to be set' and 'demultiplexed by the server ufrag ... and by the remote source address' — two sessions that are each other's peer on one shared socket have the same source address; the option is documented for the SFU/WHEP (answering) side, which is where the lattice puts it"}),
+        json!({"excluded": "enable_ice_lite on both ends",
+               "source": "RFC 8445 s2.5/s6.1.1: a lite agent never sends connectivity checks, so between two lite agents no check is ever sent and no pair is ever validated; an ICE-lite endpoint needs a full-ICE peer. The lattice has lite on the answerer and lite on the offerer, never on both"}),
+        json!({"excluded": "ICE-TCP with no passive side (both ends active-only: neither end has a tcp_port_range) together with ice_gather_udp_hosts=false; a shared TCP listener (tcp_port_range_start == tcp_port_range_end) on both ends of one in-process pair",
+               "source": "src/transports/ice/mod.rs gather(): without a TCP listen range only 'active' placeholder candidates (port 9) are advertised, RFC 6544 s4.1: active candidates pair only with passive ones — two active-only ends have no pair at all. src/transports/ice/mod.rs gather_tcp_host_candidates: start == end shares one process-wide listener keyed by the port, the documented use is the answering (WHEP) side, where the lattice puts it"}),
+        json!({"excluded": "dcs=late (the offerer creates its first data channel after media was negotiated and connected, a second offer/answer adds the application section) with media=dc",
+               "source": "by construction: with no audio/video section there is no earlier negotiation for the channel to be 'late' to (an offer without any section cannot be created: src/peer_connection.rs create_offer builds one section per transceiver)"}),
+        json!({"excluded": "dcs other than na without a data channel in the media mix, and dcs=na with one",
+               "source": "by construction: dcs says how the channels of the media mix are created"}),
+        json!({"excluded": "TURN relay region crossed with the dimensions added later (kept at rtcp-mux Require, candidates in SDP, 127.0.0.1, in-band channel, one-each traffic)",
+               "source": "not an invalid combination — a harness bound (the in-process turn 0.17 server is IPv4/UDP); listed as residue in assumptions"}),
     ]
 }
 
-fn lattice(tier: Tier) -> Vec<Point> {
-    let two = tier == Tier::Quick;
-    let pick = |all: &[&'static str], q: &[&'static str]| -> Vec<&'static str> {
-        if two { q.to_vec() } else { all.to_vec() }
-    };
+/// Every valid point of the full product of one mode (the thorough lattice of that mode).
+fn full_product(mode: &'static str) -> Vec<Point> {
+    let direct = mode != "WebRtc";
+    let media: Vec<&'static str> = if direct { vec![MEDIA[1], MEDIA[2], MEDIA[3], MEDIA[5]] } else { MEDIA.to_vec() };
+    let ices: Vec<&'static str> = if direct { ICE_DIRECT.to_vec() } else { ICE_WEBRTC.to_vec() };
+    let latches: Vec<&'static str> = if direct { LATCHES.to_vec() } else { vec!["na"] };
+    let cands: Vec<&'static str> = if direct { vec!["na"] } else { CANDS.to_vec() };
     let mut out = vec![];
-    // quick: each dimension at its default plus one non-default value (mode: all three, because
-    // the non-default modes have disjoint key agreement paths: SDES vs none).
-    for mode in MODES {
-        let direct = mode != "WebRtc";
-        let media: Vec<&'static str> = if direct {
-            // "/ans-rev": the answering side adds its tracks in the opposite order (video first)
-            pick(&[MEDIA[1], MEDIA[2], MEDIA[3], MEDIA[5]], &["audio", "audio+video", "audio+video/ans-rev"])
-        } else {
-            pick(&MEDIA, &["dc", "dc+audio+video", "audio+video/ans-rev"])
-        };
-        let ices: Vec<&'static str> =
-            if direct { pick(&ICE_DIRECT, &["none"]) } else { pick(&ICE_WEBRTC, &["full", "udpmux-ans"]) };
-        let latches: Vec<&'static str> = if direct { pick(&LATCHES, &["off", "p3"]) } else { vec!["na"] };
-        for m in &media {
-            for b in pick(&BUNDLES, &["Balanced", "MaxBundle"]) {
+    for m in &media {
+        for dcs in DCS {
+            for b in BUNDLES {
                 for x in MUXES {
                     for i in &ices {
                         for l in &latches {
                             for c in COMPATS {
                                 for o in OFFERERS {
-                                    out.push(Point { mode, media: m, bundle: b, mux: x, ice: i, latch: l, compat: c, offerer: o });
+                                    for cand in &cands {
+                                        for ip in IPS {
+                                            for tr in TRAFFICS {
+                                                let p = Point { mode, media: m, bundle: b, mux: x, ice: i, latch: l, compat: c, offerer: o, cand, ip, dcs, traffic: tr };
+                                                if p.valid() {
+                                                    out.push(p);
+                                                }
+                                            }
+                                        }
+                                    }
                                 }
                             }
                         }
@@ -176,17 +245,141 @@ fn lattice(tier: Tier) -> Vec<Point> {
             }
         }
     }
+    out
+}
+
+const NDIM: usize = 11; // every Point field except mode
+fn coords(p: &Point) -> [&'static str; NDIM] {
+    [p.media, p.bundle, p.mux, p.ice, p.latch, p.compat, p.offerer, p.cand, p.ip, p.dcs, p.traffic]
+}
+
+/// Deterministic greedy strength-2 covering array: a subset of `all` in which every pair of
+/// values of two different dimensions that occurs in `all` at all occurs in at least one point.
+/// Returns (indices into `all`, number of value pairs covered).
+fn pairwise(all: &[Point]) -> (Vec<usize>, usize) {
+    use rayon::prelude::*;
+    // value -> small index per dimension
+    let mut vals: Vec<Vec<&'static str>> = vec![vec![]; NDIM];
+    for p in all {
+        for (d, v) in coords(p).iter().enumerate() {
+            if !vals[d].contains(v) {
+                vals[d].push(v);
+            }
+        }
+    }
+    let w = vals.iter().map(|v| v.len()).max().unwrap_or(1);
+    let enc: Vec<[u8; NDIM]> = all
+        .iter()
+        .map(|p| {
+            let c = coords(p);
+            let mut e = [0u8; NDIM];
+            for d in 0..NDIM {
+                e[d] = vals[d].iter().position(|x| *x == c[d]).unwrap() as u8;
+            }
+            e
+        })
+        .collect();
+    let slot = |d1: usize, a: u8, d2: usize, b: u8| ((d1 * NDIM + d2) * w + a as usize) * w + b as usize;
+    let mut need = vec![false; NDIM * NDIM * w * w];
+    let mut open = 0usize;
+    for e in &enc {
+        for d1 in 0..NDIM {
+            for d2 in d1 + 1..NDIM {
+                let s = slot(d1, e[d1], d2, e[d2]);
+                if !need[s] {
+                    need[s] = true;
+                    open += 1;
+                }
+            }
+        }
+    }
+    let total = open;
+    let mut chosen = vec![];
+    while open > 0 {
+        let gain = |e: &[u8; NDIM]| -> usize {
+            let mut g = 0;
+            for d1 in 0..NDIM {
+                for d2 in d1 + 1..NDIM {
+                    if need[slot(d1, e[d1], d2, e[d2])] {
+                        g += 1;
+                    }
+                }
+            }
+            g
+        };
+        // largest gain, ties -> smallest index (deterministic)
+        let (best, g) = enc.par_iter().enumerate().map(|(i, e)| (i, gain(e))).reduce(|| (usize::MAX, 0), |x, y| if y.1 > x.1 || (y.1 == x.1 && y.0 < x.0) { y } else { x });
+        if g == 0 {
+            break;
+        }
+        let e = enc[best];
+        for d1 in 0..NDIM {
+            for d2 in d1 + 1..NDIM {
+                let s = slot(d1, e[d1], d2, e[d2]);
+                if need[s] {
+                    need[s] = false;
+                    open -= 1;
+                }
+            }
+        }
+        chosen.push(best);
+    }
+    chosen.sort();
+    (chosen, total - open)
+}
+
+struct Lattice {
+    points: Vec<Point>,
+    /// region name -> number of points that region contributes (before de-duplication)
+    regions: BTreeMap<&'static str, u64>,
+    pairs_covered: u64,
+}
+
+fn lattice(tier: Tier) -> Lattice {
+    let mut regions: BTreeMap<&'static str, u64> = BTreeMap::new();
+    let mut set: BTreeSet<Point> = BTreeSet::new();
+    let mut pairs_covered = 0u64;
+    for mode in MODES {
+        let all = full_product(mode);
+        if tier == Tier::Thorough {
+            *regions.entry("full product of every dimension").or_default() += all.len() as u64;
+            set.extend(all);
+            continue;
+        }
+        // quick region 1: the complete first-round product (every later dimension at its default)
+        let r1: Vec<Point> = all.iter().filter(|p| p.round1()).cloned().collect();
+        *regions.entry("first-round product in full (later dimensions at their defaults)").or_default() += r1.len() as u64;
+        set.extend(r1);
+        // quick region 2: strength-2 covering array over all values of all dimensions
+        let (idx, covered) = pairwise(&all);
+        pairs_covered += covered as u64;
+        *regions.entry("pairwise-complete covering array over all dimensions").or_default() += idx.len() as u64;
+        set.extend(idx.into_iter().map(|i| all[i].clone()));
+        // quick region 3: concurrent traffic on every ICE variant x offerer x address family with
+        // the richest media mix of the mode (channel variants in WebRtc mode), other dimensions default
+        let mut r3 = 0u64;
+        for p in &all {
+            let rich = if p.direct() { p.media == "audio+video" && p.latch == "off" } else { p.media == "dc+audio+video" };
+            if p.traffic == "burst" && rich && p.bundle == "Balanced" && p.mux == "Require" && p.compat == "Standard" && (p.cand == "sdp" || p.cand == "na") {
+                if set.insert(p.clone()) {
+                    r3 += 1;
+                }
+            }
+        }
+        *regions.entry("concurrent traffic x every ICE variant x offerer x address family x channel variant (richest media mix)").or_default() += r3;
+    }
     if tier == Tier::Thorough {
         // TURN relay region: ice_transport_policy = Relay on one side, in-process TURN server.
         for m in ["dc", "dc+audio+video"] {
             for i in ICE_RELAY {
                 for o in OFFERERS {
-                    out.push(Point { mode: "WebRtc", media: m, bundle: "Balanced", mux: "Require", ice: i, latch: "na", compat: "Standard", offerer: o });
+                    *regions.entry("TURN relay region").or_default() += 1;
+                    set.insert(Point { mode: "WebRtc", media: m, bundle: "Balanced", mux: "Require", ice: i, latch: "na", compat: "Standard", offerer: o, cand: "sdp", ip: "v4", dcs: "inband", traffic: "one" });
                 }
             }
         }
     }
-    out
+    Lattice { points: set.into_iter().collect(), regions, pairs_covered }
 }
 
 // ---------------------------------------------------------------------------------------------
@@ -199,6 +392,7 @@ struct Timeouts {
     connect: Duration,
     dc: Duration,
     rtp: Duration,
+    burst: Duration,
 }
 
 #[derive(Clone, Debug, Default)]
@@ -211,6 +405,14 @@ struct Outcome {
     /// Shape of the negotiated session (bundle, mux, setup, ports ...), for grouping and evidence.
     shape: String,
     transfers: u32,
+    /// numbered items (data-channel messages + RTP packets) judged in the concurrent pattern
+    burst_items: u64,
+    burst_flows: u32,
+    /// WebRtc offerer: how long set_remote_description(answer) took, and how long after its start
+    /// the offerer's ICE reported Connected (microseconds) — the width of the window in which
+    /// transports are started from a not yet stored answer
+    srd_answer_us: u64,
+    ice_connected_after_us: u64,
     ms: u64,
     offer: String,
     answer: String,
@@ -224,12 +426,16 @@ struct Endpoint {
     pump: tokio::task::JoinHandle<()>,
 }
 
-fn free_udp_port() -> u16 {
-    std::net::UdpSocket::bind("127.0.0.1:0").and_then(|s| s.local_addr()).map(|a| a.port()).unwrap_or(0)
+fn loopback(p: &Point) -> &'static str {
+    if p.ip == "v6" { "::1" } else { "127.0.0.1" }
 }
 
-fn free_tcp_port() -> u16 {
-    std::net::TcpListener::bind("127.0.0.1:0").and_then(|s| s.local_addr()).map(|a| a.port()).unwrap_or(0)
+fn free_udp_port(ip: &str) -> u16 {
+    std::net::UdpSocket::bind((ip, 0)).and_then(|s| s.local_addr()).map(|a| a.port()).unwrap_or(0)
+}
+
+fn free_tcp_port(ip: &str) -> u16 {
+    std::net::TcpListener::bind((ip, 0)).and_then(|s| s.local_addr()).map(|a| a.port()).unwrap_or(0)
 }
 
 fn make_cfg(p: &Point, answerer: bool, mux_port: u16, turn: Option<&IceServer>) -> RtcConfiguration {
@@ -244,21 +450,27 @@ fn make_cfg(p: &Point, answerer: bool, mux_port: u16, turn: Option<&IceServer>) 
         "MaxCompat" => BundlePolicy::MaxCompat,
         _ => BundlePolicy::MaxBundle,
     };
-    c.rtcp_mux_policy = if p.mux == "Require" { RtcpMuxPolicy::Require } else { RtcpMuxPolicy::Negotiate };
+    c.rtcp_mux_policy = if p.mux_of(answerer) == "Require" { RtcpMuxPolicy::Require } else { RtcpMuxPolicy::Negotiate };
     c.sdp_compatibility =
         if p.compat == "Standard" { SdpCompatibilityMode::Standard } else { SdpCompatibilityMode::LegacySip };
-    c.bind_ip = Some("127.0.0.1".into());
+    c.bind_ip = Some(loopback(p).into());
     match p.ice {
         "lite-ans" => c.enable_ice_lite = answerer,
+        "lite-off" => c.enable_ice_lite = !answerer,
         "tcp" => c.ice_tcp_policy = IceTcpPolicy::Enabled,
-        "tcp-only" => {
-            // as in the repository's own ICE-TCP end-to-end test: no UDP host candidates; the
-            // answerer (controlled) listens passively in a port range, the offerer connects actively
+        "tcp-only" | "tcp-only/off-listens" | "tcpmux-ans" => {
+            // as in the repository's own ICE-TCP end-to-end test: no UDP host candidates; one end
+            // listens passively in a port range, the other connects actively.
+            //   tcp-only            : the answerer listens (range of 3 ports), the offerer is active
+            //   tcp-only/off-listens: the offerer listens, the answerer is active
+            //   tcpmux-ans          : the answerer listens on the process-wide shared listener
+            //                         (tcp_port_range_start == tcp_port_range_end)
             c.ice_tcp_policy = IceTcpPolicy::Enabled;
             c.ice_gather_udp_hosts = false;
-            if answerer {
+            let listens = if p.ice == "tcp-only/off-listens" { !answerer } else { answerer };
+            if listens {
                 c.tcp_port_range_start = Some(mux_port);
-                c.tcp_port_range_end = Some(mux_port.saturating_add(2));
+                c.tcp_port_range_end = Some(if p.ice == "tcpmux-ans" { mux_port } else { mux_port.saturating_add(2) });
             }
         }
         "udpmux-ans" => {
@@ -324,13 +536,18 @@ fn build_endpoint(name: &'static str, p: &Point, cfg: RtcConfiguration, is_answe
     Ok(Endpoint { name, pc, sources, dc_rx, pump })
 }
 
-fn payload(tag: &str, idx: u32) -> Vec<u8> {
+/// Burst items are larger than the single probe items (several hundred bytes, like real media).
+fn payload_sized(tag: &str, idx: u32, base: usize) -> Vec<u8> {
     let mut v = format!("C10|{tag}|{idx:04}|").into_bytes();
     let n = v.len();
-    for i in 0..(48 + (idx as usize % 7)) {
+    for i in 0..(base + (idx as usize % 7)) {
         v.push((i as u32 * 31 + idx * 7 + n as u32) as u8);
     }
     v
+}
+
+fn payload(tag: &str, idx: u32) -> Vec<u8> {
+    payload_sized(tag, idx, 48)
 }
 
 fn attr<'a>(sec: &'a rustrtc::MediaSection, key: &str) -> Option<&'a str> {
